@@ -13,7 +13,7 @@ ASSUME = [
     "time is a virtual clock substituted for time.Now by build overlay; policy durations are small integers of seconds",
     "AES-GCM and the secret factory contract (copy then wipe source) are trusted; a pure-Go tracking SecretFactory stands in for memguard",
     "time bounds are judged against the START time of an operation (lenient reading, DESIGN.md section 8)",
-    "bounded: <=2 processes, <=2 partitions, clock <= MaxT, <= MaxKids generated keys per behaviour",
+    "bounded: <=2 processes (3 in the C14 race family), <=2 partitions, clock <= MaxT, <= MaxKids generated keys per behaviour",
 ]
 
 # clause prefixes that decide each property
